@@ -146,16 +146,30 @@ Section Step.
                 st_minptr := st_minptr s; st_maxptr := st_maxptr s;
                 st_tls := st_tls s; st_stack := st_stack s |}, fin)).
 
+  (* state after alloc_by + the registering part of GC_Set: calloc, header; nitems++, widen
+     minptr/maxptr, insert *)
+  Definition alloc_state (s : state) (p : word) (c : contents) (root : bool) : state :=
+    {| st_heap := nset p c (st_heap s); st_reg := nset p root (st_reg s);
+       st_order := st_order s ++ [p]; st_mitems := st_mitems s;
+       st_minptr := N.min p (st_minptr s); st_maxptr := N.max p (st_maxptr s);
+       st_tls := st_tls s; st_stack := st_stack s |}.
+
+  (* the state in which a collection runs inside event e, and the additional stack words:
+     GC_Set ends with `if (gc->nitems > gc->mitems) { GC_Mark(gc); GC_Sweep(gc); }` while the new
+     address is in a local of alloc_by, i.e. among the stack words *)
+  Definition collection_point (s : state) (e : event) : option (state * list word) :=
+    match e with
+    | EAlloc p c root =>
+      let s1 := alloc_state s p c root in
+      if st_mitems s <? length (st_order s1) then Some (s1, [p]) else None
+    | ECollect => Some (s, [])
+    | _ => None
+    end.
+
   Definition step (s : state) (e : event) : outcome (state * list word) :=
     match e with
     | EAlloc p c root =>
-      (* alloc_by: calloc, header; GC_Set: nitems++, widen minptr/maxptr, insert,
-         `if (gc->nitems > gc->mitems) { GC_Mark(gc); GC_Sweep(gc); }` — the new address is
-         in a local of alloc_by, i.e. among the stack words *)
-      let s1 := {| st_heap := nset p c (st_heap s); st_reg := nset p root (st_reg s);
-                   st_order := st_order s ++ [p]; st_mitems := st_mitems s;
-                   st_minptr := N.min p (st_minptr s); st_maxptr := N.max p (st_maxptr s);
-                   st_tls := st_tls s; st_stack := st_stack s |} in
+      let s1 := alloc_state s p c root in
       if st_mitems s <? length (st_order s1) then do_collect s1 [p] else Ok (s1, [])
     | EStore p c =>
       Ok ({| st_heap := nset p c (st_heap s); st_reg := st_reg s; st_order := st_order s;
@@ -166,6 +180,7 @@ Section Step.
              st_mitems := st_mitems s; st_minptr := st_minptr s; st_maxptr := st_maxptr s;
              st_tls := tls; st_stack := stack |}, [])
     | EDel p =>
+      (* GC_Rem: remove, finalise; mitems recomputed *)
       if registered (st_reg s) p then
         let order' := filter (fun q => negb (q =? p)%N) (st_order s) in
         Ok ({| st_heap := ndel p (st_heap s); st_reg := ndel p (st_reg s); st_order := order';
@@ -174,6 +189,13 @@ Section Step.
                st_tls := st_tls s; st_stack := st_stack s |}, [p])
       else Ok (s, [])
     | ECollect => do_collect s []
+    end.
+
+  (* a whole history; the lists of freed addresses, one per event *)
+  Fixpoint run (s : state) (es : list event) : outcome (state * list (list word)) :=
+    match es with
+    | [] => Ok (s, [])
+    | e :: r => bind (step s e) (fun sf => bind (run (fst sf) r) (fun sr => Ok (fst sr, snd sf :: snd sr)))
     end.
 End Step.
 
